@@ -27,7 +27,10 @@ fn pipeline(program: &Program) -> String {
     // C14: "calc_metadata (both solvers)": the equation solvers on programs small enough for them
     if program.statements.len() <= 1500 {
         let eq = crate::metadata::MetadataComputationConfig { linear_gas_solver: false, linear_ap_change_solver: false, ..Default::default() };
-        if let Ok(m) = calc_metadata(program, &info, eq) { let _ = compile(program, &info, &m, SierraToCasmConfig { gas_usage_check: true, max_bytecode_size: usize::MAX }); }
+        if let Ok(m) = calc_metadata(program, &info, eq.clone()) { let _ = compile(program, &info, &m, SierraToCasmConfig { gas_usage_check: true, max_bytecode_size: usize::MAX }); }
+        // ... and the remaining switch of the configuration (run-time cost tokens, used by the profiler), with either solver
+        let _ = calc_metadata(program, &info, crate::metadata::MetadataComputationConfig { compute_runtime_costs: true, ..eq });
+        let _ = calc_metadata(program, &info, crate::metadata::MetadataComputationConfig { compute_runtime_costs: true, ..Default::default() });
     }
     let (md, gas) = match calc_metadata(program, &info, Default::default()) {
         Ok(m) => (m, true),
